@@ -569,7 +569,15 @@ class AtLeastKInARow(_KInARow):
         # Request sublists for k+1 to allow us to determine the transition
         sublistss = self._build_variable_sublistss(block, level, self.k + 1)
         implications = []
-        for sublists in sublistss:
+        var_lists = block.build_variable_lists(level, self.within_block)
+        for sublists, var_list in zip(sublistss, var_lists):
+            if not sublists:
+                # The window has at most k trials: the level fills the window's first k trials or is absent
+                if len(var_list) < self.k:
+                    implications.extend(Not(v) for v in var_list)
+                else:
+                    implications.extend(If(v, And(var_list)) for v in var_list)
+                continue
             # Starting corner case
             implications.append(If(sublists[0][0], And(sublists[0][1:-1])))
             for sublist in sublists:
@@ -641,7 +649,14 @@ class ExactlyKInARow(_KInARow):
         sublistss = self._build_variable_sublistss(block, level, self.k)
         implications = []
 
-        for sublists in sublistss:
+        var_lists = block.build_variable_lists(level, self.within_block)
+        for sublists, var_list in zip(sublistss, var_lists):
+            if not sublists:
+                # The window is shorter than k, so the level cannot appear in it
+                (cnf, new_fresh) = block.cnf_fn(And([Not(v) for v in var_list]), backend_request.fresh)
+                backend_request.cnfs.append(cnf)
+                backend_request.fresh = new_fresh
+                continue
             # Handle the regular cases (1 => 2 ^ ... ^ n ^ ~n+1)
             trim = len(sublists) if self.k > 1 else len(sublists) - 1
             for idx, l in enumerate(sublists[:trim]):
